@@ -43,6 +43,24 @@ def r14_1(ctx):
                   'the fast path is taken without testing that %s is an integer: a fractional %s would be truncated instead of antialiased' % (nm, nm))
     ok = any(op == 'true' and is_call(a, 'PartialEq::eq') and is_self_field(strip_all(a[2][0]), 'transform') and is_call(strip_all(a[2][1]), 'identity') for op, a, b2, si in facts)
     ctx.check(ok, R, key + '|identity transform', call_line(b, bi), 'transform == identity on the fast path', 'the fast path is taken without testing that the transform is the identity')
+    # a negative size means the flipped rectangle to the general path (rect() + NonZero fill paint |w| x |h|), while the
+    # fast path's (ix, iy, ix+w, iy+h) is then inverted, hence empty: the fast path may only be taken for sizes >= 0
+    def nonneg(p):
+        for op, a, b2, si in facts:
+            if b2 is None:
+                continue
+            a1 = strip_all(a)
+            while a1[0] == 'cast':
+                a1 = strip_all(a1[3])
+            z = const_val(b2)
+            if a1 == ('param', p) and z is not None and float(z) == 0.0 and op in ('Ge', '!Lt') and (op == 'Ge' or strip_all(a)[0] == 'cast'):
+                return True
+            if a1 == ('param', p) and z is not None and op == 'Gt' and float(z) in (0.0, -1.0):
+                return True
+        return False
+    for p, nm in ((4, 'width'), (5, 'height')):
+        ctx.check(nonneg(p), R, key + '|non-negative ' + nm, call_line(b, bi), '%s >= 0 holds on the fast path' % nm,
+                  'the fast path is taken for a negative %s: its rectangle (ix, iy, ix+iwidth, iy+iheight) is then inverted and nothing is drawn, while the general path fills the flipped rectangle (e.g. fill_rect(5,5,-3,3) differs from filling PathBuilder::rect(5,5,-3,3), and from the same call under a surface-covering clip)' % nm)
     ctx.check(dt.clip_stack_empty_guard(ctx, b, bi), R, key + '|no clip', call_line(b, bi), 'clip_stack.is_empty() on the fast path', 'the fast path is taken while a clip may be pushed')
     # rectangle
     rect = strip_all(ct[2][4])
@@ -159,9 +177,13 @@ def r14_3(ctx):
             ctx.check(ok, R, key + '|slow route rect', call_line(b, bi), 'rect(x, y, width, height)', 'the path route does not fill rect(x, y, width, height)')
     f = ctx.body(DT + 'fill', R)
     n = 0
+    fan = ctx.an(f)
+    fsites = []
     for bi, d, ct in calls_in(ctx, f):
-        if d != DT + 'composite':
-            continue
+        if d == DT + 'composite':
+            # one composite call fed by a mask chosen per antialias mode counts once per mode
+            fsites.extend((bi, ct2) for _bb, ct2 in shared.call_variants(fan, bi, ct, args=[2]))
+    for bi, ct in fsites:
         n += 1
         ok = strip_all(ct[2][1]) in (('param', 3), ('deref', ('param', 3))) and field_path(strip_all(ct[2][5])) == (('param', 4), ['blend_mode']) and field_path(strip_all(ct[2][6])) == (('param', 4), ['alpha'])
         ctx.check(ok, R, 'draw_target::DrawTarget::fill|composite params@%d' % n, call_line(f, bi), 'composite(src, .., options.blend_mode, options.alpha)', 'fill does not composite with (src, options.blend_mode, options.alpha)')
